@@ -13,7 +13,11 @@
    smaller basis, cropping a degree-3 basis does not (den_b below).
 
    The order of global assignments relative to the raising points is part of
-   the model (see step_call).  No proofs here. *)
+   the model (see ensure_bs): since the fixes cbc57b0 / 216552f / 7ce4ac5 a
+   degree-3 basis is loaded only from a file of exactly the requested size, a
+   loaded array must have the shape its file name promises, and _bs / _bs_prm
+   are assigned together after load-or-generate-and-save succeeded.
+   No proofs here. *)
 From Coq Require Import List Arith Bool.
 From PA Require Import base.Npy model.CacheCommon.
 Import ListNotations.
@@ -61,7 +65,7 @@ Definition init : st :=
   {| bs := None; bs_prm := None; tr := None; tr_prm := None; gdir := GUnset; dk := [] |}.
 
 Inductive op :=
-  | Call (n deg : nat) (rt : regt) (s : nat) (fwd : bool) (bd : bdarg) (lastsz : nat)
+  | Call (n deg : nat) (rt : regt) (s : nat) (fwd : bool) (bd : bdarg)
   | Cleanup (all : bool)                   (* cache_cleanup('all' / 'inverse') *)
   | DirCleanup (bd : bdarg)
   | SetDir (bd : bdarg)
@@ -71,24 +75,21 @@ Inductive op :=
 (* ---- _load_bs --------------------------------------------------------- *)
 Inductive lres := LNone | LSome (b : bcont) | LRaise (e : exc).
 
-(* smallest size >= n among the files of this degree *)
+(* smallest size >= n among the files of this degree; for degree 3 only a file
+   of exactly the requested size (the cubic-spline basis depends on n) *)
 Fixpoint best_file (n deg : nat) (l : list (fkey * fstate bcont)) (acc : option (fkey * fstate bcont))
   : option (fkey * fstate bcont) :=
   match l with
   | [] => acc
   | (k, c) :: r =>
-      let ok := (snd k =? deg) && (n <=? fst k) &&
-                match acc with Some (k', _) => fst k <? fst k' | None => true end in
+      let ok := (snd k =? deg) &&
+                (if deg =? 3 then fst k =? n
+                 else (n <=? fst k) &&
+                      match acc with Some (k', _) => fst k <? fst k' | None => true end) in
       best_file n deg r (if ok then Some (k, c) else acc)
   end.
 
-Definition junk (sz deg : nat) : bcont :=
-  {| b_deg := deg; b_gen := 0; b_size := sz; b_junk := true |}.
-
-(* `lastsz` is the size in the name of the last file yielded by glob() for
-   this degree (0 when none): `if size > n` in _load_bs tests that leftover
-   loop variable, not best_size *)
-Definition load_bs (dir : option nat) (n deg lastsz : nat) (d : disk fkey bcont) : lres :=
+Definition load_bs (dir : option nat) (n deg : nat) (d : disk fkey bcont) : lres :=
   match dir with
   | None => LNone
   | Some di =>
@@ -98,8 +99,8 @@ Definition load_bs (dir : option nat) (n deg lastsz : nat) (d : disk fkey bcont)
           match c with
           | FBad PValue => LNone                       (* except ValueError *)
           | FBad e => LRaise (load_exc e)
-          | FShape => let j := junk (Nat.div2 (fst k)) deg in LSome (if n <? lastsz then crop n j else j)
-          | FGood b => LSome (if n <? lastsz then crop n b else b)
+          | FShape => LNone                            (* bs.shape != (best_size, best_size) *)
+          | FGood b => LSome (crop n b)                (* if best_size > n *)
           end
       end
   end.
@@ -126,27 +127,26 @@ Definition with_tr (s : st) (t : option tcont) (p : option (nat * regt * nat)) :
 
 (* the part of get_bs_cached that makes _bs right; returns the new state or
    the state at the raising point *)
-Definition ensure_bs (s : st) (n deg : nat) (bd : bdarg) (lastsz : nat) : st * option exc :=
+Definition ensure_bs (s : st) (n deg : nat) (bd : bdarg) : st * option exc :=
   match bs_ok s n deg with
   | Raise e => (s, Some e)
   | Ret true => (s, None)
   | Ret false =>
       let (g, dir) := resolve (gdir s) bd in
       let s1 := with_gdir s g in
-      match load_bs dir n deg lastsz (dk s1) with
+      match load_bs dir n deg (dk s1) with
       | LRaise e => (s1, Some e)                       (* nothing assigned yet *)
       | LSome b =>
           ({| bs := Some b; bs_prm := Some (n, deg); tr := None; tr_prm := None;
               gdir := g; dk := dk s1 |}, None)
       | LNone =>
-          (* _bs = None; _bs = _bs_daun(n, degree); _save_bs(...) *)
-          let s2 := with_bs s1 (Some (ideal n deg)) in
+          (* bs = _bs_daun(n, degree); _save_bs(...); then _bs = bs; _bs_prm = ... *)
           match dir with
           | Some di =>
               if dir_writable di then
                 ({| bs := Some (ideal n deg); bs_prm := Some (n, deg); tr := None; tr_prm := None;
                     gdir := g; dk := put_file fkey_eqb di (n, deg) (FGood (ideal n deg)) (dk s1) |}, None)
-              else (s2, Some EOther)                   (* np.save raises; _bs_prm, _tr stay *)
+              else (s1, Some EOther)                   (* the save raises: nothing was assigned *)
           | None =>
               ({| bs := Some (ideal n deg); bs_prm := Some (n, deg); tr := None; tr_prm := None;
                   gdir := g; dk := dk s1 |}, None)
@@ -195,8 +195,8 @@ Definition compute (s1 : st) (b : bcont) (n deg : nat) (rt : regt) (z : nat) (fw
       end.
 
 Definition step_call (s : st) (n deg : nat) (rt : regt) (z : nat) (fwd : bool)
-           (bd : bdarg) (lastsz : nat) : st * res mres :=
-  match ensure_bs s n deg bd lastsz with
+           (bd : bdarg) : st * res mres :=
+  match ensure_bs s n deg bd with
   | (s1, Some e) => (s1, Raise e)
   | (s1, None) =>
       match bs s1 with
@@ -207,7 +207,7 @@ Definition step_call (s : st) (n deg : nat) (rt : regt) (z : nat) (fwd : bool)
 
 Definition step (s : st) (o : op) : st * res mres :=
   match o with
-  | Call n deg rt z fwd bd lastsz => step_call s n deg rt z fwd bd lastsz
+  | Call n deg rt z fwd bd => step_call s n deg rt z fwd bd
   | Cleanup all =>
       ({| bs := if all then None else bs s; bs_prm := if all then None else bs_prm s;
           tr := None; tr_prm := None; gdir := gdir s; dk := dk s |}, Raise EOther)
@@ -269,9 +269,9 @@ Definition out_eqv (a b : res mres) : bool :=
 (* the same call in a fresh process with an empty basis directory *)
 Definition fresh (o : op) : res mres :=
   match o with
-  | Call n deg rt z fwd bd _ =>
+  | Call n deg rt z fwd bd =>
       snd (step_call init n deg rt z fwd
-             (match bd with BPath d => if dir_writable d then BPath 1 else bd | _ => bd end) 0)
+             (match bd with BPath d => if dir_writable d then BPath 1 else bd | _ => bd end))
   | _ => Raise EOther
   end.
 
@@ -305,7 +305,7 @@ Record obs := {
   o_listing : list (nat * nat * nat) }.
 
 Definition observe (o : op) (s' : st) (r : res mres) : obs :=
-  let is_call := match o with Call _ _ _ _ _ _ _ => true | _ => false end in
+  let is_call := match o with Call _ _ _ _ _ _ => true | _ => false end in
   {| o_code := if is_call then res_code r else 0;
      o_agree := if is_call then out_eqv r (fresh o) else true;
      o_fresh_code := if is_call then res_code (fresh o) else 0;
@@ -343,12 +343,12 @@ Fixpoint trace_hist (s : st) (h : list op) : list obs :=
   | o :: r => let (s', res) := step s o in observe o s' res :: trace_hist s' r
   end.
 
-(* ---- hazards: the program paths behind the recorded findings ----------- *)
+(* ---- preconditions ------------------------------------------------------ *)
 Definition bcont_eqb (a b : bcont) : bool :=
   (b_deg a =? b_deg b) && (b_gen a =? b_gen b) && (b_size a =? b_size b) && eqb (b_junk a) (b_junk b).
 
 Definition is_call (o : op) : bool :=
-  match o with Call _ _ _ _ _ _ _ => true | _ => false end.
+  match o with Call _ _ _ _ _ _ => true | _ => false end.
 
 Definition uses_bad_dir (s : st) (bd : bdarg) : bool :=
   match snd (resolve (gdir s) bd) with
@@ -356,29 +356,17 @@ Definition uses_bad_dir (s : st) (bd : bdarg) : bool :=
   | None => false
   end.
 
+(* what is left are assumptions about the environment, not defects: the degree
+   is one of 0..3, basis directories are writable, and good files found on
+   disk are what a save of their name writes (damaged and wrong-shape files
+   are allowed) *)
 Definition hazard (s : st) (o : op) : bool :=
   match o with
-  | Call n deg rt z fwd bd lastsz =>
-      (3 <? deg) ||
-      uses_bad_dir s bd ||                     (* a save would fail: _bs without _bs_prm *)
-      match bs_ok s n deg with
-      | Ret false =>
-          match snd (resolve (gdir s) bd) with
-          | Some di =>
-              ((deg =? 3) &&                   (* a larger cubic basis will be cropped *)
-               match best_file n deg (in_dir di (dk s)) None with
-               | Some (k, FGood _) => n <? fst k
-               | _ => false
-               end)
-          | None => false
-          end
-      | _ => false
-      end
+  | Call n deg rt z fwd bd => (3 <? deg) || uses_bad_dir s bd
   | Seed d k c =>
       match c with
-      | FShape => true
       | FGood b => negb (bcont_eqb b (ideal (fst k) (snd k)))   (* not what a save writes *)
-      | FBad _ => false
+      | _ => false
       end
   | _ => false
   end.
